@@ -111,7 +111,12 @@ impl SwiftField for Field55B {
             line_idx = 1;
         }
 
-        // Remaining line is location
+        // Remaining line is location; nothing may follow it
+        if lines.len() > line_idx + 1 {
+            return Err(ParseError::InvalidFormat {
+                message: "Field 55B has unexpected content after the location line".to_string(),
+            });
+        }
         if line_idx < lines.len() && !lines[line_idx].is_empty() {
             location = Some(parse_max_length(lines[line_idx], 35, "Field55B location")?);
         }
